@@ -31,11 +31,18 @@ DERIVE_ROUTES = (
     'unpack', 'cut_piece', 'split_piece', 'str_again', 'array_from_bits', 'array_from_list', 'array_slice',
     'array_copy', 'array_from_array', 'array_data_slice', 'array_op', 'tobitarray', 'to_bytearray', 'to_memoryview',
     'to_array', 'to_ba', 'gen_findall', 'gen_cut', 'gen_split', 'gen_iter', 'bytesio', 'bool_list', 'dtype_build',
-    'array_getitem_bits', 'ctor_from_foreign', 'ctor_from_foreign',
+    'array_getitem_bits', 'ctor_from_foreign', 'ctor_from_foreign', 'ctor_value', 'ctor_value', 'pack_value', 'dtype_build_value', 'array_value',
 )
+CTOR_VALUES = (('bool', True, None), ('bool', False, None), ('uint', 1, 8), ('int', -1, 8), ('hex', 'ff', None), ('bin', '1', None), ('bin', '0', None), ('oct', '7', None),
+               ('float', 1.5, 32), ('ue', 3, None), ('se', -2, None), ('uintle', 1, 16), ('bfloat', 1.0, None), ('e4m3mxfp', 1.0, None), ('bytes', b'a', None),
+               ('uint', 0, 1), ('uint', 1, 1), ('hex', '0', None), ('mxint', 0.5, None), ('e2m1mxfp', 6.0, None))
 MUT_OPS = ('append', 'prepend', 'insert', 'overwrite', 'delslice', 'setitem', 'setslice', 'set', 'invert', 'reverse', 'rol',
            'ror', 'byteswap', 'ilshift', 'irshift', 'imul', 'iand', 'ior', 'ixor', 'clear', 'replace', 'iadd',
-           'prop_uint', 'prop_hex', 'prop_bits', 'prop_bin', 'prop_bytes', 'setpos')
+           'prop_uint', 'prop_hex', 'prop_bits', 'prop_bin', 'prop_bytes', 'setpos', 'prop_any', 'prop_any', 'prop_any')
+# (name, value) pairs for property assignment: every setter that builds its store a different way
+PROP_VALUES = (('bool', True), ('bool', False), ('int', -1), ('int', 0), ('oct', '7'), ('float', 1.5), ('floatle', 1.5), ('bfloat', 1.0), ('uintle', 1), ('intbe', -2),
+               ('ue', 3), ('se', -2), ('uie', 5), ('sie', -1), ('u8', 255), ('i4', -8), ('f16', 0.5), ('h', 'ff'), ('b', '1'), ('o', '0'), ('e4m3mxfp', 1.0),
+               ('p4binary', 2.0), ('e2m1mxfp', 6.0), ('mxint', 0.5), ('e8m0mxfp', 4.0), ('bytes', b'a'), ('uint', 1), ('hex', '0'), ('bin', '0'), ('bin', '1'))
 ARRAY_OPS = ('append', 'extend', 'insert', 'pop', 'setitem', 'setslice', 'delitem', 'reverse', 'iadd', 'imul', 'byteswap', 'data_append',
              'data_invert', 'data_assign', 'dtype_assign', 'fromfile', 'ixor')
 FOREIGN_OPS = ('flip', 'append', 'clear', 'setall', 'extend', 'pop')
@@ -486,6 +493,18 @@ class EAlias(Engine):
                 P(bsrc); made.append(C(list(bsrc.obj)[:64]))
             elif route == 'dtype_build' and bsrc:
                 P(bsrc); made.append(B.Dtype('bits').build(bsrc.obj)); made.append(B.Dtype('bits').parse(bsrc.obj))
+            elif route == 'ctor_value':
+                name, val, ln = CTOR_VALUES[(n * 7 + int(ev.get('src', 0))) % len(CTOR_VALUES)]
+                made.append(C(**({name: val, 'length': ln} if ln else {name: val})))
+            elif route == 'pack_value':
+                name, val, ln = CTOR_VALUES[(n * 7 + int(ev.get('src', 0))) % len(CTOR_VALUES)]
+                made.append(B.pack(f'{name}:{ln}' if ln else name, val))
+            elif route == 'dtype_build_value':
+                name, val, ln = CTOR_VALUES[(n * 7 + int(ev.get('src', 0))) % len(CTOR_VALUES)]
+                made.append(B.Dtype(name, ln).build(val) if ln else B.Dtype(name).build(val))
+            elif route == 'array_value':
+                made.append(B.Array('bool', [True, False, True]))
+                made.append(B.Array('uint1', [1, 0]).data)
             elif route in ('gen_findall', 'gen_cut', 'gen_split', 'gen_iter') and src:
                 tgt = bsrc if route != 'gen_iter' or src.kind not in ('Array',) else src
                 if tgt is None:
@@ -601,6 +620,9 @@ class EAlias(Engine):
             self._after_mutation(tgt)
             return {tgt.serial} | tgt.coupled, f'mutate:Array.{aop}', {'st': st}
         op = str(ev.get('op'))
+        if len(x) > 2048 and op in ('replace', 'imul', 'append', 'prepend', 'insert', 'iadd', 'overwrite', 'setslice', 'prop_bits'):
+            # repeated self-referential growth (x.replace('0b1', x) ...) is exponential: a workload bomb, not a library matter
+            return set(), 'mutate:skipped-growth-of-large-target', {'st': 'skip'}
 
         def go():
             o = self._operand(ev, tgt)
@@ -665,6 +687,12 @@ class EAlias(Engine):
                 x.bin = '0110'
             elif op == 'prop_bytes':
                 x.bytes = b'\x0f\xf0'
+            elif op == 'prop_any':
+                name, val = PROP_VALUES[abs(v) % len(PROP_VALUES)]
+                if name in ('int', 'uint', 'float', 'floatle', 'uintle', 'intbe') and len(x) not in (16, 32, 64):
+                    x.clear()
+                    x.append('0x0000')
+                setattr(x, name, val)
             elif op == 'setpos' and hasattr(x, '_pos'):
                 x.pos = min(abs(pos or 0), len(x))
         st, r = call(go)
